@@ -167,6 +167,10 @@ func (h *ResponseHeader) NoDefaultContentType() bool {
 // SetConnectionClose sets 'Connection: close' header.
 func (h *ResponseHeader) SetConnectionClose(close bool) {
 	h.connectionClose = close
+	if close {
+		// 'close' replaces any other connection option stored as an ordinary field (for example keep-alive)
+		h.h = delAllArgsBytes(h.h, bytestr.StrConnection)
+	}
 }
 
 func (h *ResponseHeader) PeekArgBytes(key []byte) []byte {
@@ -1385,6 +1389,10 @@ func (h *RequestHeader) collectCookies() {
 
 func (h *RequestHeader) SetConnectionClose(close bool) {
 	h.connectionClose = close
+	if close {
+		// 'close' replaces any other connection option stored as an ordinary field (for example keep-alive)
+		h.h = delAllArgsBytes(h.h, bytestr.StrConnection)
+	}
 }
 
 // ResetConnectionClose clears 'Connection: close' header if it exists.
